@@ -2,56 +2,112 @@
    declared length and no trailing zero word; deserialization of any u32 sequence yields the
    canonical value it denotes; round trips; sign validation; size hints are irrelevant. *)
 From BigNum Require Import Base BaseLemmas SpecBytes BytesLemmas BitDigits BitDigitsProofs
-  Iter IterProofs Bytes BytesProofs Serde.
+  SrcLitLemmas Iter IterProofs Bytes BytesProofs Serde.
 Open Scope Z_scope.
 
-(** ** serialization *)
-Lemma ser_words_abs x : snd (ser_biguint x) = abs (it_new x).
+(** ** the source-extracted parameters the proofs are about *)
+Definition std_de_arms : list (Z * sign) := [(-1, Minus); (0, NoSign); (1, Plus)].
+Definition serde_std : serde_params := {|
+  sdp_last_shift := 32; sdp_len_mul := 2; sdp_len_one := 1; sdp_len_cmp := Cne;
+  sdp_elem_shift := 32; sdp_emit_cmp := Cne; sdp_de_shift := 32;
+  sdp_ser_minus := -1; sdp_ser_nosign := 0; sdp_ser_plus := 1;
+  sdp_de_arms := std_de_arms; sdp_from_biguint := true |}.
+
+Fixpoint arms_eqb (a b : list (Z * sign)) : bool :=
+  match a, b with
+  | [], [] => true
+  | (k, s) :: a', (k', s') :: b' => (k =? k') && sign_eqb s s' && arms_eqb a' b'
+  | _, _ => false
+  end.
+Lemma arms_eqb_true a : forall b, arms_eqb a b = true -> a = b.
 Proof.
-  unfold ser_biguint, abs, it_new. cbn [it_data it_next_is_lo it_last_hi_is_zero negb drop_first].
+  induction a as [|[k s] a IH]; intros [|[k' s'] b] H; try discriminate; [reflexivity|].
+  cbn [arms_eqb] in H. rewrite !andb_true_iff in H. destruct H as [[H1 H2] H3].
+  apply Z.eqb_eq in H1. rewrite (IH b H3). subst k'.
+  destruct s, s'; try discriminate; reflexivity.
+Qed.
+
+Definition serde_ok (p : serde_params) : bool :=
+  (sdp_last_shift p =? 32) && (sdp_len_mul p =? 2) && (sdp_len_one p =? 1)
+  && cmpop_eqb (sdp_len_cmp p) Cne && (sdp_elem_shift p =? 32) && cmpop_eqb (sdp_emit_cmp p) Cne
+  && (sdp_de_shift p =? 32)
+  && (sdp_ser_minus p =? -1) && (sdp_ser_nosign p =? 0) && (sdp_ser_plus p =? 1)
+  && arms_eqb (sdp_de_arms p) std_de_arms && Bool.eqb (sdp_from_biguint p) true.
+
+(** every field is pinned: the accepted parameter record is exactly [serde_std] *)
+Lemma serde_ok_inv p : serde_ok p = true -> p = serde_std.
+Proof.
+  destruct p. unfold serde_ok, serde_std. cbn -[Z.eqb arms_eqb std_de_arms].
+  rewrite !andb_true_iff. intros H.
+  repeat match goal with H : _ /\ _ |- _ => destruct H end.
+  repeat match goal with
+  | H : cmpop_eqb _ _ = true |- _ => apply cmpop_eqb_true in H
+  | H : arms_eqb _ _ = true |- _ => apply arms_eqb_true in H
+  | H : Bool.eqb _ _ = true |- _ => apply Bool.eqb_prop in H
+  | H : (_ =? _) = true |- _ => apply Z.eqb_eq in H
+  end.
+  subst. reflexivity.
+Qed.
+Ltac sd_std p H := apply serde_ok_inv in H; subst p.
+Ltac sd_red :=
+  cbn [serde_std sdp_last_shift sdp_len_mul sdp_len_one sdp_len_cmp sdp_elem_shift sdp_emit_cmp
+       sdp_de_shift sdp_ser_minus sdp_ser_nosign sdp_ser_plus sdp_de_arms sdp_from_biguint cmp_eval] in *;
+  change (shr32 32) with hi32 in *.
+
+(** ** serialization *)
+Lemma ser_words_abs x : snd (ser_biguint serde_std x) = abs (it_new iter_std x).
+Proof.
+  unfold ser_biguint, abs, it_new. sd_red. ip_red. cbn [it_data it_next_is_lo it_last_hi_is_zero negb drop_first].
   destruct (snoc_cases x) as [->|(r & t & ->)]; [reflexivity|].
   rewrite last_opt_snoc, removelast_snoc, flat32_snoc. cbn [snd].
-  destruct (hi32 t =? 0); cbn [drop_last].
+  destruct (hi32 t =? 0); cbn [drop_last negb].
   - change [lo32 t; hi32 t] with ([lo32 t] ++ [hi32 t]). rewrite app_assoc, removelast_snoc. reflexivity.
   - reflexivity.
 Qed.
-Lemma ser_len_exact x : fst (ser_biguint x) = Z.of_nat (length (snd (ser_biguint x))).
+Lemma ser_len_exact x : fst (ser_biguint serde_std x) = Z.of_nat (length (snd (ser_biguint serde_std x))).
 Proof.
-  unfold ser_biguint. destruct (snoc_cases x) as [->|(r & t & ->)]; [reflexivity|].
+  unfold ser_biguint. sd_red. destruct (snoc_cases x) as [->|(r & t & ->)]; [reflexivity|].
   rewrite last_opt_snoc, removelast_snoc. cbn [fst snd].
   fold (flat32 r). rewrite app_length, (flat32_length r).
-  destruct (hi32 t =? 0); cbn [length]; lia.
+  destruct (hi32 t =? 0); cbn [length negb]; lia.
 Qed.
 
-Theorem ser_biguint_spec x : canon x -> ser_biguint x = spec_ser (val x).
+Theorem ser_biguint_spec p x : serde_ok p = true -> canon x -> ser_biguint p x = spec_ser (val x).
 Proof.
-  intros Hx. unfold spec_ser. cbv zeta. change (2 ^ 32) with W32.
-  rewrite <- (abs_new x Hx), <- ser_words_abs, <- ser_len_exact.
-  destruct (ser_biguint x); reflexivity.
+  intros Hok; sd_std p Hok. intros Hx. unfold spec_ser. cbv zeta. change (2 ^ 32) with W32.
+  rewrite <- (abs_new iter_std x eq_refl Hx), <- ser_words_abs, <- ser_len_exact.
+  destruct (ser_biguint serde_std x); reflexivity.
 Qed.
 
 (** the three clauses separately: digits, declared length, no trailing zero word *)
-Corollary ser_biguint_digits x : canon x -> snd (ser_biguint x) = le_digits (2 ^ 32) (val x).
-Proof. intros Hx. rewrite ser_biguint_spec by auto. reflexivity. Qed.
-Corollary ser_biguint_declared_len x : fst (ser_biguint x) = Z.of_nat (length (snd (ser_biguint x))).
-Proof. apply ser_len_exact. Qed.
-Corollary ser_biguint_no_trailing_zero x : canon x ->
-  snd (ser_biguint x) = [] \/ last (snd (ser_biguint x)) 0 <> 0.
+Corollary ser_biguint_digits p x : serde_ok p = true -> canon x ->
+  snd (ser_biguint p x) = le_digits (2 ^ 32) (val x).
+Proof. intros Hok Hx. rewrite ser_biguint_spec by auto. reflexivity. Qed.
+Corollary ser_biguint_declared_len p x : serde_ok p = true ->
+  fst (ser_biguint p x) = Z.of_nat (length (snd (ser_biguint p x))).
+Proof. intros Hok; sd_std p Hok. apply ser_len_exact. Qed.
+Corollary ser_biguint_no_trailing_zero p x : serde_ok p = true -> canon x ->
+  snd (ser_biguint p x) = [] \/ last (snd (ser_biguint p x)) 0 <> 0.
 Proof.
-  intros Hx. rewrite ser_biguint_digits by auto.
+  intros Hok Hx. rewrite ser_biguint_digits by auto.
   destruct (le_digits_spec (2 ^ 32) (val x) ltac:(reflexivity) (val_nonneg _ (proj1 Hx))) as (_ & Hs & _).
   destruct (le_digits (2 ^ 32) (val x)) eqn:E; [left; reflexivity|right].
   apply strip_fix_last; [exact Hs|discriminate].
 Qed.
-Corollary ser_biguint_zero : ser_biguint [] = (0, []).
+Corollary ser_biguint_zero p : ser_biguint p [] = (0, []).
 Proof. reflexivity. Qed.
 
 (** ** deserialization *)
-Lemma de_pairs_eq w : de_pairs w = pair_words w.
-Proof. reflexivity. Qed.
+Lemma de_pairs_eq w : de_pairs serde_std w = pair_words w.
+Proof.
+  assert (H : forall n w, (length w <= n)%nat -> de_pairs serde_std w = pair_words w).
+  { induction n as [|n IH]; intros [|a [|b r]] Hl; try reflexivity; cbn [length] in Hl; try lia.
+    cbn [de_pairs pair_words]. rewrite IH by lia. reflexivity. }
+  apply (H (length w)); lia.
+Qed.
 
-Theorem de_biguint_spec w : inb W32 w -> de_biguint w = enc (le_value (2 ^ 32) w).
-Proof. intros H. unfold de_biguint. rewrite de_pairs_eq. apply (uassign_from_slice_spec [] w H). Qed.
+Theorem de_biguint_spec p w : serde_ok p = true -> inb W32 w -> de_biguint p w = enc (le_value (2 ^ 32) w).
+Proof. intros Hok; sd_std p Hok. intros H. unfold de_biguint. rewrite de_pairs_eq. apply (uassign_from_slice_spec [] w H). Qed.
 
 Lemma is_u32_inb w : forallb is_u32 w = true <-> inb W32 w.
 Proof.
@@ -63,61 +119,63 @@ Qed.
 
 (** any token stream, any hint: elements that are not u32 are rejected, otherwise the result
     is the canonical value Σ w_i 2^(32 i) *)
-Theorem de_biguint_tokens_spec hint w :
-  de_biguint_tokens hint w = option_map enc (spec_de w).
+Theorem de_biguint_tokens_spec p hint w : serde_ok p = true ->
+  de_biguint_tokens p hint w = option_map enc (spec_de w).
 Proof.
-  unfold de_biguint_tokens, spec_de. change (forallb is_word w) with (forallb is_u32 w).
+  intros Hok. unfold de_biguint_tokens, spec_de. change (forallb is_word w) with (forallb is_u32 w).
   destruct (forallb is_u32 w) eqn:E; [|reflexivity].
   apply is_u32_inb in E. cbn [de_biguint_hinted snd option_map]. rewrite de_biguint_spec by auto. reflexivity.
 Qed.
 
-Theorem de_hint_irrelevant h1 h2 w :
-  snd (de_biguint_hinted h1 w) = snd (de_biguint_hinted h2 w) /\
-  de_biguint_tokens h1 w = de_biguint_tokens h2 w.
-Proof. split; [reflexivity|rewrite !de_biguint_tokens_spec; reflexivity]. Qed.
+Theorem de_hint_irrelevant p h1 h2 w :
+  snd (de_biguint_hinted p h1 w) = snd (de_biguint_hinted p h2 w) /\
+  de_biguint_tokens p h1 w = de_biguint_tokens p h2 w.
+Proof. split; reflexivity. Qed.
 
 (** ** round trip *)
 Lemma le_digits_inb32 n : 0 <= n -> inb W32 (le_digits (2 ^ 32) n).
 Proof. intros Hn. apply (le_digits_spec (2 ^ 32) n); [reflexivity|auto]. Qed.
 
-Theorem de_ser_biguint x : canon x -> de_biguint (snd (ser_biguint x)) = x.
+Theorem de_ser_biguint p x : serde_ok p = true -> canon x -> de_biguint p (snd (ser_biguint p x)) = x.
 Proof.
-  intros Hx. pose proof (val_nonneg _ (proj1 Hx)) as Hn.
+  intros Hok Hx. pose proof (val_nonneg _ (proj1 Hx)) as Hn.
   rewrite ser_biguint_digits, de_biguint_spec by auto using le_digits_inb32.
   destruct (le_digits_spec (2 ^ 32) (val x) ltac:(reflexivity) Hn) as (_ & _ & Hv).
   rewrite Hv. apply enc_of_canon; auto.
 Qed.
-Theorem de_ser_biguint_tokens x hint : canon x ->
-  de_biguint_tokens hint (snd (ser_biguint x)) = Some x.
+Theorem de_ser_biguint_tokens p x hint : serde_ok p = true -> canon x ->
+  de_biguint_tokens p hint (snd (ser_biguint p x)) = Some x.
 Proof.
-  intros Hx. unfold de_biguint_tokens.
-  replace (forallb is_u32 (snd (ser_biguint x))) with true.
+  intros Hok Hx. unfold de_biguint_tokens.
+  replace (forallb is_u32 (snd (ser_biguint p x))) with true.
   - cbn [de_biguint_hinted snd]. rewrite de_ser_biguint by auto. reflexivity.
   - symmetry. apply is_u32_inb. rewrite ser_biguint_digits by auto.
     apply le_digits_inb32, val_nonneg, Hx.
 Qed.
 
 (** ** Sign <-> i8 *)
-Theorem de_sign_ser s : de_sign (ser_sign s) = Some s.
-Proof. destruct s; reflexivity. Qed.
-Theorem de_sign_spec v :
-  de_sign v = if (v =? -1) || (v =? 0) || (v =? 1) then Some (z_sign v) else None.
+Theorem de_sign_ser p s : serde_ok p = true -> de_sign p (ser_sign p s) = Some s.
+Proof. intros Hok; sd_std p Hok. destruct s; reflexivity. Qed.
+Theorem de_sign_spec p v : serde_ok p = true ->
+  de_sign p v = if (v =? -1) || (v =? 0) || (v =? 1) then Some (z_sign v) else None.
 Proof.
-  unfold de_sign.
+  intros Hok; sd_std p Hok. unfold de_sign. sd_red. cbn [std_de_arms match_arms].
   destruct (Z.eqb_spec v (-1)) as [->|]; [reflexivity|].
   destruct (Z.eqb_spec v 0) as [->|]; [reflexivity|].
   destruct (Z.eqb_spec v 1) as [->|]; reflexivity.
 Qed.
-Theorem de_sign_rejects v : v <> -1 -> v <> 0 -> v <> 1 -> de_sign v = None.
+Theorem de_sign_rejects p v : serde_ok p = true -> v <> -1 -> v <> 0 -> v <> 1 -> de_sign p v = None.
 Proof.
-  intros. rewrite de_sign_spec.
+  intros Hok. intros. rewrite de_sign_spec by auto.
   destruct (Z.eqb_spec v (-1)), (Z.eqb_spec v 0), (Z.eqb_spec v 1); try lia. reflexivity.
 Qed.
 
 (** ** BigInt *)
-Theorem de_bigint_spec v hint w : de_bigint v hint w = option_map ienc (spec_ide v w).
+Theorem de_bigint_spec p v hint w : serde_ok p = true ->
+  de_bigint p v hint w = option_map ienc (spec_ide v w).
 Proof.
-  unfold de_bigint, spec_ide. rewrite de_sign_spec, de_biguint_tokens_spec.
+  intros Hok. unfold de_bigint, spec_ide. rewrite de_sign_spec, de_biguint_tokens_spec by auto.
+  replace (sdp_from_biguint p) with true by (apply serde_ok_inv in Hok; subst p; reflexivity).
   destruct ((v =? -1) || (v =? 0) || (v =? 1)) eqn:Ev; [|reflexivity].
   unfold spec_de. destruct (forallb is_word w) eqn:E; [|reflexivity].
   cbn [option_map]. change (forallb is_word w) with (forallb is_u32 w) in E. apply is_u32_inb in E.
@@ -128,39 +186,43 @@ Proof.
   destruct (Z.eqb_spec v 1) as [->|]; [reflexivity|discriminate].
 Qed.
 
-Corollary de_bigint_rejects v hint w : v <> -1 -> v <> 0 -> v <> 1 -> de_bigint v hint w = None.
-Proof. intros. unfold de_bigint. rewrite de_sign_rejects by auto. reflexivity. Qed.
-Corollary de_bigint_sign0 hint w : inb W32 w -> de_bigint 0 hint w = Some (mkint NoSign []).
+Corollary de_bigint_rejects p v hint w : serde_ok p = true ->
+  v <> -1 -> v <> 0 -> v <> 1 -> de_bigint p v hint w = None.
+Proof. intros Hok. intros. unfold de_bigint. rewrite de_sign_rejects by auto. reflexivity. Qed.
+Corollary de_bigint_sign0 p hint w : serde_ok p = true -> inb W32 w ->
+  de_bigint p 0 hint w = Some (mkint NoSign []).
 Proof.
-  intros H. rewrite de_bigint_spec. unfold spec_ide, spec_de. cbn [Z.eqb orb].
+  intros Hok H. rewrite de_bigint_spec by auto. unfold spec_ide, spec_de. cbn [Z.eqb orb].
   replace (forallb is_word w) with true by (symmetry; apply is_u32_inb; auto).
   cbn [option_map]. rewrite Z.mul_0_l. reflexivity.
 Qed.
-Corollary de_bigint_zero_mag v hint w : v = 1 \/ v = -1 -> inb W32 w -> le_value (2 ^ 32) w = 0 ->
-  de_bigint v hint w = Some (mkint NoSign []).
+Corollary de_bigint_zero_mag p v hint w : serde_ok p = true ->
+  v = 1 \/ v = -1 -> inb W32 w -> le_value (2 ^ 32) w = 0 ->
+  de_bigint p v hint w = Some (mkint NoSign []).
 Proof.
-  intros Hv H Hz. rewrite de_bigint_spec. unfold spec_ide, spec_de.
+  intros Hok Hv H Hz. rewrite de_bigint_spec by auto. unfold spec_ide, spec_de.
   replace (forallb is_word w) with true by (symmetry; apply is_u32_inb; auto).
   rewrite Hz. destruct Hv as [->| ->]; reflexivity.
 Qed.
-Corollary de_bigint_hint_irrelevant v h1 h2 w : de_bigint v h1 w = de_bigint v h2 w.
-Proof. rewrite !de_bigint_spec. reflexivity. Qed.
+Corollary de_bigint_hint_irrelevant p v h1 h2 w : de_bigint p v h1 w = de_bigint p v h2 w.
+Proof. reflexivity. Qed.
 
 Lemma sign_z_sgn z : sign_z (z_sign z) = Z.sgn z.
 Proof. destruct z; reflexivity. Qed.
 
-Theorem ser_bigint_spec x : icanon x -> ser_bigint x = spec_iser (ival x).
+Theorem ser_bigint_spec p x : serde_ok p = true -> icanon x -> ser_bigint p x = spec_iser (ival x).
 Proof.
-  intros H. destruct (icanon_parts x H) as (Hc & Hs & Hv). unfold ser_bigint, spec_iser.
-  rewrite ser_biguint_spec, Hv by auto. f_equal. rewrite Hs.
-  change (ser_sign (z_sign (ival x))) with (sign_z (z_sign (ival x))). apply sign_z_sgn.
+  intros Hok H. destruct (icanon_parts x H) as (Hc & Hs & Hv). unfold ser_bigint, spec_iser.
+  rewrite ser_biguint_spec, Hv by auto. f_equal. rewrite Hs. sd_std p Hok.
+  change (ser_sign serde_std (z_sign (ival x))) with (sign_z (z_sign (ival x))). apply sign_z_sgn.
 Qed.
 
-Theorem de_ser_bigint x hint : icanon x ->
-  de_bigint (fst (ser_bigint x)) hint (snd (snd (ser_bigint x))) = Some x.
+Theorem de_ser_bigint p x hint : serde_ok p = true -> icanon x ->
+  de_bigint p (fst (ser_bigint p x)) hint (snd (snd (ser_bigint p x))) = Some x.
 Proof.
-  intros H. unfold ser_bigint, de_bigint. cbn [fst snd].
-  rewrite de_sign_ser, de_ser_biguint_tokens by apply H.
+  intros Hok H. unfold ser_bigint, de_bigint. cbn [fst snd].
+  rewrite de_sign_ser, de_ser_biguint_tokens by (auto; apply H).
+  replace (sdp_from_biguint p) with true by (apply serde_ok_inv in Hok; subst p; reflexivity).
   f_equal. destruct x as [s m]. destruct H as [Hc Hz]. cbn in *.
   destruct s; cbn [from_biguint].
   - destruct m; [|reflexivity]. destruct Hz as [_ Hz]. specialize (Hz eq_refl). discriminate.
